@@ -11,7 +11,7 @@ ITER_WF = ("%s.index <= %s.ast.nodes@.len() && %s.bank_ref.0 < %s.bank_data@.len
 def iter_wf(x):
     return ITER_WF.replace("%s", x)
 
-next_verified = Fn(FI, "next", impl=ITER_IMPL, slot="resolver", ret="res", key="ResolveIterator::next", props=["C01", "C03", "C06"],
+next_verified = Fn(FI, "next", impl=ITER_IMPL, slot="resolver", ret="res", key="ResolveIterator::next", props=["C01", "C03", "C06", "C15"],
     requires=[
         C("cursor_well_formed", iter_wf("old(self)"), ["C03"]),
         C("ast_refers_to_defined_items", "ast_ok(old(self).ast, decls, defs, old(self).bank_data@.len() as int)", ["C03"]),
@@ -30,6 +30,11 @@ next_verified = Fn(FI, "next", impl=ITER_IMPL, slot="resolver", ret="res", key="
           " asm::ResolverNode::Addr(n) => defined(&defs.addr_directives, n.item_ref),"
           " _ => true })", ["C03", "C01"]),
         C("cursor_stays_well_formed", "res is Ok ==> " + iter_wf("final(self)"), ["C03"]),
+        C("scope_follows_the_walk", "res is Ok && old(self).index < old(self).ast.nodes@.len() ==> (match old(self).ast.nodes@[old(self).index as int] {"
+          " asm::AstAny::Symbol(s) => *final(self).symbol_ctx == decls.symbols.spec_decl(s.item_ref->0).ctx,"
+          " _ => final(self).symbol_ctx == old(self).symbol_ctx })", ["C15"]),
+        C("context_carries_the_scope", "res is Ok && res->Ok_0 is Some ==> res->Ok_0->0.symbol_ctx == final(self).symbol_ctx", ["C15"]),
+        C("scope_kept_at_the_end", "res is Ok && res->Ok_0 is None ==> final(self).symbol_ctx == old(self).symbol_ctx", ["C15"]),
     ],
     inserts=[
         Insert("        let ast_any = &self.ast.nodes[self.index];", "\n        proof { assert(node_ok(self.ast.nodes@[self.index as int], defs)); assert(*ast_any == self.ast.nodes@[self.index as int]); }\n", where="after"),
@@ -38,6 +43,36 @@ next_verified = Fn(FI, "next", impl=ITER_IMPL, slot="resolver", ret="res", key="
                why="finding guard D9a: bank position + alignment overflows usize"),
     ],
 )
+
+
+next_simple = Fn(FI, "next_simple", impl=ITER_IMPL, slot="resolver", ret="res", key="ResolveIterator::next_simple", props=["C15", "C03"],
+    requires=[
+        C("cursor_in_range", "old(self).index <= old(self).ast.nodes@.len() && old(self).index < usize::MAX", ["C03"]),
+        C("symbols_declared", "forall|j: int| 0 <= j < old(self).ast.nodes@.len() ==> (match #[trigger] old(self).ast.nodes@[j] { asm::AstAny::Symbol(s) => s.item_ref is Some, _ => true })", ["C03"]),
+    ],
+    ensures=[
+        C("never_fails", "res is Ok", ["C03"]),
+        C("one_node_per_call", "final(self).ast == old(self).ast && final(self).index == (if old(self).index < old(self).ast.nodes@.len() { old(self).index + 1 } else { old(self).index as int })", ["C15"]),
+        C("end_of_program", "(res->Ok_0 is None) == (old(self).index >= old(self).ast.nodes@.len())", ["C15"]),
+        C("scope_follows_the_walk", "old(self).index < old(self).ast.nodes@.len() ==> (match old(self).ast.nodes@[old(self).index as int] {"
+          " asm::AstAny::Symbol(s) => *final(self).symbol_ctx == decls.symbols.spec_decl(s.item_ref->0).ctx && res->Ok_0->0.node == asm::ResolverNode::Symbol(&s),"
+          " _ => final(self).symbol_ctx == old(self).symbol_ctx && res->Ok_0->0.node is None })", ["C15"]),
+        C("context_carries_the_scope", "res->Ok_0 is Some ==> res->Ok_0->0.symbol_ctx == final(self).symbol_ctx", ["C15"]),
+        C("scope_kept_at_the_end", "res->Ok_0 is None ==> final(self).symbol_ctx == old(self).symbol_ctx", ["C15"]),
+    ],
+    rewrites=[Rewrite("        static DUMMY_BANK_DATA: BankData = BankData {\n            cur_position: 0,\n        };\n", "", rule="R24",
+                      why="a `static` item declared inside the function body is hoisted, unchanged, to module level (Verus does not support item statements inside bodies)")],
+)
+HOISTED = Raw("resolver", "hoisted::DUMMY_BANK_DATA", """
+// R24: hoisted from the body of ResolveIterator::next_simple (same item)
+exec static DUMMY_BANK_DATA: BankData
+    ensures DUMMY_BANK_DATA.cur_position == 0
+{
+    BankData {
+        cur_position: 0,
+    }
+}
+""")
 
 
 # refinement check: the stub contract of `next` that resolve_once uses (U-resolver, clause NODE_OK) follows
@@ -67,7 +102,7 @@ pub fn verif_refine_next_for_resolve_once<'iter>(
 
 UNIT = Unit(
     "U-cursor", "u_output/skeleton.rs",
-    items=COMMON + overlap_items + bitvec_items + [advance_address.as_stub("resolver"), bits_until_alignment.as_stub("resolver"), next_verified, REFINE],
-    serves=["C01", "C03", "C06", "C02"],
+    items=COMMON + overlap_items + bitvec_items + [advance_address.as_stub("resolver"), bits_until_alignment.as_stub("resolver"), next_verified, HOISTED, next_simple, REFINE],
+    serves=["C01", "C03", "C06", "C02", "C15"],
     description="ResolveIterator::next: the walk over the AST shared by the resolve passes and build_output",
 )
